@@ -17,6 +17,8 @@ for d in sorted(glob.glob("/verif/seeded/C*-*"), key=lambda p: (p.split("/")[-1]
         caught = "thorough only: `" + "`, `".join(dict.fromkeys(t.get("signatures", [])[:2])) + "`"
     else:
         caught = "**missed** (" + q.get("verdict", "?") + ")"
+    if m.get("superseded"):
+        caught = "no longer manifests (see §10): " + m["superseded"][:160] + "…"
     rows.append(f"| {sid} | {summary} | {needs} | {caught} |")
 table = "| id | change (product code only; suite still 77/77) | needs, to manifest | reported by `./check <property>` |\n|---|---|---|---|\n" + "\n".join(rows)
 p = "/verif/DESIGN.md"
